@@ -145,8 +145,9 @@ class C13(core.Check):
         save_fn = find_fn(t_sess.body, 'save')
         re_rows = []
         for n in ast.walk(save_fn):
-            if isinstance(n, ast.If) and ast.unparse(n.test) == 'response.stream':
-                for s in n.body:
+            tst = ast.unparse(n.test) if isinstance(n, ast.If) else None
+            if tst in ('response.stream', 'not response.stream'):
+                for s in (n.body if tst == 'response.stream' else n.orelse):      # the branch taken when streaming
                     if isinstance(s, ast.Expr) and isinstance(s.value, ast.Call) and \
                             ast.unparse(s.value.func).endswith('hooks.attach'):
                         re_rows.append(row(0, s.value, tool_prio))
@@ -166,6 +167,12 @@ class C13(core.Check):
         close_ok = any(isinstance(n, ast.If) and "getattr(sess, 'locked', False)" in ast.unparse(n.test)
                        and any('sess.release_lock()' in ast.unparse(x) for x in n.body)
                        for n in ast.walk(close_fn))
+        if not close_ok:
+            # guard-clause form: a local holding the `locked` flag, `if not <local>: return`, then the release
+            src_c = ast.unparse(close_fn)
+            m = re.search(r"(\w+) = getattr\(sess, 'locked', False\)\n\s*if not \1:\n\s*return\n(.*)", src_c, flags=re.S)
+            close_ok = bool(m and 'sess.release_lock()' in m.group(2) and
+                            not re.search(r"\breturn\b|\braise\b", m.group(2).split('sess.release_lock()')[0]))
         regen = ast.unparse(find_fn(sess_cls.body, '_regenerate'))
         i_rel, i_acq, i_gen = regen.find('self.release_lock()'), regen.find('self.acquire_lock()'), \
             regen.find('self.generate_id()')
